@@ -14,6 +14,7 @@ Definition g_add (a b : Z) := wrap64 (a + b).
 Definition g_sub (a b : Z) := wrap64 (a - b).
 Definition g_mul (a b : Z) := wrap64 (a * b).
 Definition g_quot (a b : Z) := wrap64 (Z.quot a b).   (* Go `/` truncates toward zero *)
+Definition g_rem (a b : Z) := wrap64 (Z.rem a b).     (* Go `%`: sign of the dividend *)
 Definition g_and (a b : Z) := Z.land a b.
 Definition g_or  (a b : Z) := Z.lor a b.
 Definition g_shr (a k : Z) := Z.shiftr a k.           (* arithmetic shift *)
